@@ -11,9 +11,6 @@ open PromVerif.Py PromVerif.Model.ParseCore PromVerif.Model.Validation PromVerif
 /-- a sample as `_parse_sample` returns it: labels and value are set -/
 def Plain (s : OSample) : Prop := s.labels.isSome = true ∧ s.value.isSome = true
 
-/-- a timestamp that `float()` converts (`Timestamp.__float__` does not overflow); floats and `None` always do -/
-def TsOK (P : Params) (ts : Option OTs) : Prop := ∀ a b, ts = some (.stamp a b) → (P.tsFloat a b).isSome = true
-
 /-- interpreter fact used by the `le` test: `float("NaN")` is a NaN -/
 def NaNLiteral (P : Params) : Prop := ∀ f, P.pyFloat sNaN = some f → P.isNaN f = true
 
@@ -33,32 +30,26 @@ theorem safe_isUncanonical (P : Params) (s : Str) : Safe (isUncanonicalNumber P 
 
 theorem safe_cmpOpt_some (P : Params) (op : CmpOp) (a b : Num) : Safe (P.cmpOpt op (some a) (some b)) := safe_ok _
 
-theorem safe_stampFloat (P : Params) (a b : Int) (h : (P.tsFloat a b).isSome = true) : ∃ f, stampFloat P a b = .ok f := by
-  obtain ⟨f, hf⟩ := Option.isSome_iff_exists.mp h
-  exact ⟨f, by simp only [stampFloat, hf]⟩
-
-/-- comparing two timestamps raises nothing once `Timestamp` coerces a non-Timestamp operand (007bfee) and the
-conversion does not overflow -/
-theorem safe_tsGt (P : Params) (a b : OTs) (ha : TsOK P (some a)) (hb : TsOK P (some b)) : Safe (tsGt P a b) := by
-  have hflag : tsCoerce = true := by decide
+/-- comparing two timestamps raises nothing: `Timestamp` coerces a non-Timestamp operand (007bfee) and falls back to
+comparing the seconds when the conversion overflows (a186a64) -/
+theorem safe_tsGt (P : Params) (a b : OTs) : Safe (tsGt P a b) := by
+  have h1 : tsCoerce = true := by decide
+  have h2 : tsOverflowFallback = true := by decide
   cases a with
   | stamp s n =>
     cases b with
     | stamp s2 n2 => exact safe_ok _
     | flt f =>
-      obtain ⟨x, hx⟩ := safe_stampFloat P s n (ha s n rfl)
-      simp only [tsGt, hflag, if_true, hx]
-      exact safe_ok _
+      simp only [tsGt, h1, h2, if_true]
+      split <;> exact safe_ok _
   | flt f =>
     cases b with
     | stamp s n =>
-      obtain ⟨x, hx⟩ := safe_stampFloat P s n (hb s n rfl)
-      simp only [tsGt, hflag, if_true, hx]
-      exact safe_ok _
+      simp only [tsGt, h1, h2, if_true]
+      split <;> exact safe_ok _
     | flt g => exact safe_ok _
 
-theorem safe_chkGroupTs (P : Params) (t : Str) (g s : Option OTs) (hg : TsOK P g) (hs : TsOK P s) :
-    Safe (chkGroupTs P t g s) := by
+theorem safe_chkGroupTs (P : Params) (t : Str) (g s : Option OTs) : Safe (chkGroupTs P t g s) := by
   unfold chkGroupTs
   by_cases c : (s.isNone != g.isNone) = true
   · rw [if_pos c]; exact safe_valueError
@@ -71,7 +62,7 @@ theorem safe_chkGroupTs (P : Params) (t : Str) (g s : Option OTs) (hg : TsOK P g
       | some b =>
         dsimp only
         cases h : tsGt P a b with
-        | error e => intro e' he'; cases he'; exact safe_tsGt P a b hg hs e h
+        | error e => intro e' he'; cases he'; exact safe_tsGt P a b e h
         | ok gt => exact safe_raiseIf _
 
 /-- the label / value checks before grouping -/
@@ -198,8 +189,7 @@ theorem groupForSample_guarded_some (P : Params) (n : Str) (typ : Option Str) (s
 
 /-- grouping, timestamps and duplicate suppression -/
 theorem safe_groupStep (P : Params) (gr : Grp) (n : Str) (typ : Option Str) (s : OSample) (hp : Plain s)
-    (hpre : preChecks P n typ s = .ok ()) (hg : TsOK P gr.groupTs) (hs : TsOK P s.ts) :
-    Safe (groupStep P gr n (typ.getD []) s) := by
+    (hpre : preChecks P n typ s = .ok ()) : Safe (groupStep P gr n (typ.getD []) s) := by
   obtain ⟨l, hl⟩ := Option.isSome_iff_exists.mp hp.1
   obtain ⟨d, hd⟩ := groupForSample_guarded_some P n typ s l hl hpre
   unfold groupStep
@@ -214,7 +204,7 @@ theorem safe_groupStep (P : Params) (gr : Grp) (n : Str) (typ : Option Str) (s :
     | error e =>
       intro e' he'; cases he'
       split at h2
-      · exact safe_chkGroupTs P _ _ _ hg hs e h2
+      · exact safe_chkGroupTs P _ _ _ e h2
       · cases h2
     | ok u2 =>
       dsimp only
@@ -223,8 +213,7 @@ theorem safe_groupStep (P : Params) (gr : Grp) (n : Str) (typ : Option Str) (s :
 
 /-- the whole sample branch after the family is settled (plain sample) -/
 theorem safe_sampleChecks (P : Params) (h : Hdr) (gr : Grp) (s : OSample) (n : Str) (hn : h.name = some n)
-    (hp : Plain s) (hnan : NaNLiteral P) (hg : TsOK P gr.groupTs) (hs : TsOK P s.ts) :
-    Safe (sampleChecks P h gr s false) := by
+    (hp : Plain s) (hnan : NaNLiteral P) : Safe (sampleChecks P h gr s false) := by
   rw [sampleChecks_false, hn]
   dsimp only
   cases h1 : preChecks P n h.typ s with
@@ -232,7 +221,7 @@ theorem safe_sampleChecks (P : Params) (h : Hdr) (gr : Grp) (s : OSample) (n : S
   | ok u =>
     dsimp only
     cases h2 : groupStep P gr n (h.typ.getD []) s with
-    | error e => intro e' he'; cases he'; exact safe_groupStep P gr n h.typ s hp h1 hg hs e h2
+    | error e => intro e' he'; cases he'; exact safe_groupStep P gr n h.typ s hp h1 e h2
     | ok gr' =>
       dsimp only
       cases h3 : postChecks P n h.typ s with
